@@ -480,6 +480,16 @@ def check_headers():
     mbox, _ = _mods()
     vals = [None, "", "plain", "=?utf-8?B?SGVsbG8gV8O2cmxk?=", "=?x-nope?q?caf=E9?=", "=?utf-8?q?a?= b =?iso-8859-1?q?=E9?=", "a\n b", "a\r\n\tb", "=?utf-8?b?w5w=?=\n =?utf-8?b?w7Y=?=",
             "=?utf-8?q?bad=FF?=", "=?ascii?q?=E9?="]
+    # (round 6) folded values, systematically: every pair / triple of segments (plain text, RFC 2047 Q word, B word) folded between
+    # the segments with a blank or a tab, LF or CRLF -- the folding white space between an encoded word and plain text is content
+    segs = ["Quartalsbericht", "=?utf-8?q?M=C3=A4rz?=", "=?utf-8?b?w5xiZXJzaWNodA==?=", "Haus 7"]
+    for a in segs:
+        for b in segs:
+            for ws in (" ", "\t"):
+                for eol in ("\n", "\r\n"):
+                    vals.append(a + eol + ws + b)
+                    vals.append(a + eol + ws + b + eol + ws + segs[0])
+                    vals.append(segs[0] + " " + a + eol + ws + b)
 
     def ref_dhv(v):
         if not v:
@@ -807,6 +817,100 @@ def check_bodies():
     return None
 
 
+def eml_raw_forms():
+    """(round 6) Hand-assembled .eml files, systematically: line ends of the FILE (LF / CRLF) x transfer encoding of the bodies
+    (7bit, 8bit, quoted-printable, base64) x an extra INLINE part without a file name that is neither text/plain nor text/html
+    (text/calendar, text/x-vcard, text/enriched, message/delivery-status; inside the alternative or next to it) x attachments
+    whose data is carried verbatim (7bit / 8bit / binary, data with CR LF pairs of its own) or encoded.  -> [(label, raw)]"""
+    plain_u, html_u = "line one\nline tw\u00f6\n\nlast line", "<p>caf\u00e9</p>\n<p>second</p>"
+    plain_a, html_a = "line one\nline two\n\nlast line", "<p>cafe</p>\n<p>second</p>"
+
+    def enc(text, cte):
+        b = text.encode("utf-8")
+        if cte == "base64":
+            return base64.encodebytes(b)
+        if cte == "quoted-printable":
+            return quopri.encodestring(b) + b"\n"
+        return b + b"\n"
+
+    def part(ct, cte, body, extra=b""):
+        return b"Content-Type: " + ct + b"\nContent-Transfer-Encoding: " + cte.encode() + b"\n" + extra + b"\n" + body
+
+    EXTRA = [None,
+             (b"text/calendar; charset=utf-8; method=REQUEST", b"BEGIN:VCALENDAR\nVERSION:2.0\nBEGIN:VEVENT\nSUMMARY:Review\nEND:VEVENT\nEND:VCALENDAR\n"),
+             (b"text/x-vcard; charset=utf-8", b"BEGIN:VCARD\nFN:Alice Example\nEND:VCARD\n"),
+             (b"text/enriched; charset=utf-8", b"<bold>enriched</bold> text\n"),
+             (b"message/delivery-status", b"Reporting-MTA: dns; mx.example.org\n\nFinal-Recipient: rfc822; b@x.org\nAction: failed\n")]
+    ATTS = [None,
+            ("data.csv", b"text/csv", "7bit", b"a,b\n1,2\n3,4\n"),
+            ("win.csv", b"text/csv", "7bit", b"a,b\r\n1,2\r\n"),
+            ("notes.txt", b"text/plain; charset=us-ascii", "8bit", b"first\r\nsecond\r\n"),
+            ("image.png", b"image/png", "base64", b"\x89PNG\r\n\x1a\n" + b"\x00" * 20),
+            ("page.html", b"text/html", "quoted-printable", b"<p>x</p>\r\n<p>y</p>\r\n")]
+    out = []
+    head = b"From: Alice <a@x.org>\nTo: b@x.org\nSubject: raw forms\n" + D0 + b"MIME-Version: 1.0\n"
+    for cte in ("7bit", "8bit", "quoted-printable", "base64"):
+        plain, html = (plain_a, html_a) if cte == "7bit" else (plain_u, html_u)
+        for xi, extra in enumerate(EXTRA):
+            for where in (("alt", "mixed") if extra is not None else ("alt",)):
+                for ai, att in enumerate(ATTS):
+                    alt = [part(b"text/plain; charset=utf-8", cte, enc(plain, cte)), part(b"text/html; charset=utf-8", cte, enc(html, cte))]
+                    if extra is not None and where == "alt":
+                        alt.append(part(extra[0], "7bit", extra[1]))
+                    inner = b"Content-Type: multipart/alternative; boundary=ALT\n\n" + b"".join(b"--ALT\n" + x_ for x_ in alt) + b"--ALT--\n"
+                    parts = [inner]
+                    if extra is not None and where == "mixed":
+                        parts.append(part(extra[0], "7bit", extra[1]))
+                    if att is not None:
+                        name, ct, acte, data = att
+                        body = base64.encodebytes(data) if acte == "base64" else (quopri.encodestring(data) + b"\n" if acte == "quoted-printable" else data)
+                        parts.append(part(ct, acte, body, b'Content-Disposition: attachment; filename="' + name.encode() + b'"\n'))
+                    raw = head + b"Content-Type: multipart/mixed; boundary=MIX\n\n" + b"".join(b"--MIX\n" + x_ for x_ in parts) + b"--MIX--\n"
+                    for eol in ("LF", "CRLF"):
+                        if eol == "CRLF":
+                            # a file saved with CRLF line ends: every line end of the LF form becomes CR LF (data lines that already
+                            # end in CR LF keep theirs)
+                            r2 = re.sub(rb"(?<!\r)\n", b"\r\n", raw)
+                        else:
+                            r2 = raw
+                        out.append((f"eol={eol} cte={cte} extra={xi}/{where} att={ai}", r2))
+    return out
+
+
+def check_eml_raw_forms(what=("bodies", "attachments")):
+    """.eml against the stdlib parser as reference, on eml_raw_forms(): body_plain / body_html are the content of the text/plain /
+    text/html part (an inline part of another type is in neither), every attachment has the bytes the stdlib decodes
+    (`get_payload(decode=True)`) -- exact, whatever line ends the file or the data use."""
+    import email
+    for label, raw in eml_raw_forms():
+        m = email.message_from_bytes(raw)
+        want_p = want_h = ""
+        want_atts = []
+        for p_ in m.walk():
+            if p_.is_multipart():
+                continue
+            if p_.get_filename():
+                want_atts.append((p_.get_filename(), p_.get_content_type(), p_.get_payload(decode=True)))
+            elif p_.get_content_type() == "text/plain" and not want_p:
+                want_p = p_.get_payload(decode=True).decode(p_.get_content_charset() or "utf-8", errors="replace")
+            elif p_.get_content_type() == "text/html" and not want_h:
+                want_h = p_.get_payload(decode=True).decode(p_.get_content_charset() or "utf-8", errors="replace")
+        try:
+            res = run_eml(raw)
+            got_p, got_h = res[0].body_plain, res[0].body_html
+            got_atts = [(a.filename, a.mime_type, a.data.getvalue()) for a in res[0].attachments]
+        except Exception as e:  # noqa
+            return {"target": "eml_email_extractor.py::_read_eml_format", "inputs": {"form": label, "message": raw.decode("latin-1")},
+                    "expected": "a result", "observed": f"{type(e).__name__}: {e}"}
+        if "bodies" in what and (got_p.strip() != want_p.strip() or got_h.strip() != want_h.strip()):
+            return {"target": "eml_email_extractor.py::_read_eml_format", "inputs": {"form": label, "message": raw.decode("latin-1")},
+                    "expected": _short((want_p.strip(), want_h.strip())), "observed": _short((got_p, got_h))}
+        if "attachments" in what and got_atts != want_atts:
+            return {"target": "eml_email_extractor.py::_read_eml_format", "inputs": {"form": label, "message": raw.decode("latin-1")},
+                    "expected": _short([(n, t_, len(d), d[:40]) for n, t_, d in want_atts]), "observed": _short([(n, t_, len(d), d[:40]) for n, t_, d in got_atts])}
+    return None
+
+
 def check_pattern():
     mbox, _ = _mods()
     rx = mbox.MBOX_FROM_PATTERN
@@ -1110,6 +1214,8 @@ RECORDED_SHAPES = ("folded-quoted-names",)       # legacy variants that only res
 
 FUNCTION_CHECKS = [
     ("parse_email_message", check_dates), ("_read_eml_format", check_eml_dates),
+    ("_read_eml_format/ensures#body_", lambda: check_eml_raw_forms(("bodies",))), ("_read_eml_format/ensures#every-attachment", lambda: check_eml_raw_forms(("attachments",))),
+    ("_read_eml_format", check_eml_raw_forms),
     ("MBOX_FROM_PATTERN", check_pattern), ("get_body_content", check_bodies),
     ("_split_mbox_messages", check_split), ("decode_header_value", check_headers), ("parse_email_address", check_headers),
     ("iterate_supported_attachments", check_dispatch), ("_parse_single_recipient", check_single_recipient), ("read_msg_format_mail", check_msg_mapping), ("read_msg_format_mail", check_msg_fixture),
